@@ -233,19 +233,25 @@ Qed.
 (* ---- mergeSupers as a state change ---------------------------------------------------------- *)
 Definition static_eq (c c' : cobj) : Prop :=
   co_name c' = co_name c /\ co_supers c' = co_supers c /\ co_slots c' = co_slots c.
-(* w' differs from w only in derived fields of class objects; ready classes stay ready *)
+(* w' differs from w only in derived fields of class objects *)
 Definition ext (w w' : world) : Prop :=
   reg w' = reg w /\ gfs w' = gfs w /\ insts w' = insts w /\ length (heap w') = length (heap w) /\
-  (forall j c, get w j = Some c -> exists c', get w' j = Some c' /\ static_eq c c' /\ (co_prec c <> [] -> co_prec c' <> [])).
+  (forall j c, get w j = Some c -> exists c', get w' j = Some c' /\ static_eq c c').
+(* ready classes stay ready *)
+Definition rmono (w w' : world) : Prop := forall j, readyb w j = true -> readyb w' j = true.
 Lemma ext_refl : forall w, ext w w.
 Proof. intros w. repeat split; auto. intros j c H. exists c. repeat split; auto. Qed.
 Lemma ext_trans : forall a b c, ext a b -> ext b c -> ext a c.
 Proof.
   intros a b c [R1 [G1 [I1 [L1 H1]]]] [R2 [G2 [I2 [L2 H2]]]]. repeat split; try congruence.
-  intros j x Hx. destruct (H1 j x Hx) as [y [Hy [[S1 [S2 S3]] P1]]].
-  destruct (H2 j y Hy) as [z [Hz [[T1 [T2 T3]] P2]]].
-  exists z. repeat split; try congruence. auto.
+  intros j x Hx. destruct (H1 j x Hx) as [y [Hy [S1 [S2 S3]]]].
+  destruct (H2 j y Hy) as [z [Hz [T1 [T2 T3]]]].
+  exists z. repeat split; try congruence.
 Qed.
+Lemma rmono_refl : forall w, rmono w w.
+Proof. intros w j H. exact H. Qed.
+Lemma rmono_trans : forall a b c, rmono a b -> rmono b c -> rmono a c.
+Proof. intros a b c H1 H2 j H. apply H2. apply H1. exact H. Qed.
 Lemma ext_get_none : forall w w' j, ext w w' -> get w j = None -> get w' j = None.
 Proof.
   intros w w' j [_ [_ [_ [L _]]]] H. unfold get in *. apply nth_error_None in H. apply nth_error_None. lia.
@@ -255,14 +261,14 @@ Proof.
   intros w w' E m. pose proof E as [R [_ [_ [_ H]]]]. unfold table. rewrite R.
   destruct (lookup (reg w) m) as [id|]; [|reflexivity].
   destruct (get w id) as [c|] eqn:G.
-  - destruct (H id c G) as [c' [G' [[_ [S _]] _]]]. rewrite G'. congruence.
+  - destruct (H id c G) as [c' [G' [_ [S _]]]]. rewrite G'. congruence.
   - rewrite (ext_get_none _ _ _ E G). reflexivity.
 Qed.
 Lemma ext_slots : forall w w', ext w w' -> forall p, slots_of (heap w') p = slots_of (heap w) p.
 Proof.
   intros w w' E p. pose proof E as [_ [_ [_ [_ H]]]]. unfold slots_of.
   destruct (nth_error (heap w) (fst p)) as [c|] eqn:G.
-  - destruct (H (fst p) c G) as [c' [G' [[_ [_ S]] _]]]. unfold get in G'. rewrite G'. assumption.
+  - destruct (H (fst p) c G) as [c' [G' [_ [_ S]]]]. unfold get in G'. rewrite G'. assumption.
   - pose proof (ext_get_none _ _ _ E G) as G'. unfold get in G'. rewrite G'. reflexivity.
 Qed.
 Lemma ext_good : forall w w' n c, ext w w' -> good w n c -> good w' n c.
@@ -276,12 +282,7 @@ Lemma ext_WF : forall w w', ext w w' -> WF w -> WF w'.
 Proof.
   intros w w' E [N H]. pose proof E as [R [_ [_ [_ HE]]]]. split; [rewrite R; assumption|].
   intros n id Hl. rewrite R in Hl. destruct (H n id Hl) as [c [G [Hn Hd]]].
-  destruct (HE id c G) as [c' [G' [[S1 [S2 _]] _]]]. exists c'. split; [assumption|]. split; congruence.
-Qed.
-Lemma ext_readyb : forall w w' j, ext w w' -> readyb w j = true -> readyb w' j = true.
-Proof.
-  intros w w' j [_ [_ [_ [_ H]]]] Hr. apply readyb_true in Hr. destruct Hr as [c [G P]].
-  destruct (H j c G) as [c' [G' [_ P']]]. apply readyb_true. eauto.
+  destruct (HE id c G) as [c' [G' [S1 [S2 _]]]]. exists c'. split; [assumption|]. split; congruence.
 Qed.
 
 Lemma with_heap_same : forall w, with_heap w (heap w) = w.
@@ -297,17 +298,28 @@ Proof.
       * repeat split; simpl; auto using set_nth_length.
         intros j x Hx. unfold get; simpl. destruct (Nat.eq_dec j id) as [->|Hne].
         -- rewrite nth_set_same by assumption. rewrite G in Hx. inversion Hx; subst x.
-           eexists. split; [reflexivity|]. split; [repeat split|]. intros _. apply mk_prec_nonnil.
+           eexists. split; [reflexivity|]. repeat split.
         -- rewrite nth_set_other by auto. exists x. repeat split; auto.
       * intros j Hne. unfold get; simpl. apply nth_set_other. auto.
     + split.
       * repeat split; simpl; auto using set_nth_length.
         intros j x Hx. unfold get; simpl. destruct (Nat.eq_dec j id) as [->|Hne].
         -- rewrite nth_set_same by assumption. rewrite G in Hx. inversion Hx; subst x.
-           eexists. split; [reflexivity|]. split; [repeat split|]. simpl. auto.
+           eexists. split; [reflexivity|]. repeat split.
         -- rewrite nth_set_other by auto. exists x. repeat split; auto.
       * intros j Hne. unfold get; simpl. apply nth_set_other. auto.
   - inversion H; subst. split; [apply ext_refl | auto].
+Qed.
+(* a merge of a class that is not ready, or a merge that succeeds, leaves every ready class ready *)
+Lemma merge_rmono : forall w id w' b, merge w id = (w', b) -> (b = true \/ readyb w id = false) -> rmono w w'.
+Proof.
+  intros w id w' b M Hc j Hj. destruct (merge_ext _ _ _ _ M) as [_ Hother].
+  destruct (Nat.eq_dec j id) as [->|Hne]; [|unfold readyb; rewrite (Hother j Hne); exact Hj].
+  destruct Hc as [->|Hc]; [|congruence].
+  unfold merge in M. destruct (get w id) as [c|] eqn:G; [|inversion M].
+  assert (Hlt : id < length (heap w)) by (eapply nth_error_Some_lt; exact G).
+  destruct (phase1 (reg w) (heap w) (co_supers c) []) as [ds|]; inversion M; subst.
+  apply readyb_true. eexists. split; [unfold get; simpl; apply nth_set_same; assumption|]. simpl. apply mk_prec_nonnil.
 Qed.
 
 (* merging a registered class all of whose direct supers are good makes it good *)
@@ -333,15 +345,25 @@ Proof.
     + exact Hgood.
 Qed.
 
-Lemma blank_eta : forall c, co_inherit c = [] ->
-  mkCO (co_name c) (co_supers c) (co_slots c) [] (co_prec c) (co_initargs c) (co_initforms c) = c.
-Proof. intros [] H. simpl in *. subst. reflexivity. Qed.
-(* a failing merge of a class whose inherit list is already empty changes nothing *)
-Lemma merge_fail_noop : forall w id c, get w id = Some c -> co_inherit c = [] ->
+Definition blanked (c : cobj) : cobj := mkCO (co_name c) (co_supers c) (co_slots c) [] [] (co_initargs c) (co_initforms c).
+Lemma blank_eta : forall c, blank c -> blanked c = c.
+Proof. intros [] [H1 H2]. unfold blanked. simpl in *. subst. reflexivity. Qed.
+Lemma blanked_blank : forall c, blank (blanked c).
+Proof. intros c. split; reflexivity. Qed.
+(* a failing merge of a class that is blank already changes nothing *)
+Lemma merge_fail_noop : forall w id c, get w id = Some c -> blank c ->
   phase1 (reg w) (heap w) (co_supers c) [] = None -> merge w id = (w, false).
 Proof.
-  intros w id c G B P. unfold merge. rewrite G, P. rewrite (blank_eta c B).
+  intros w id c G B P. unfold merge. rewrite G, P. fold (blanked c). rewrite (blank_eta c B).
   rewrite set_nth_same by exact G. rewrite with_heap_same. reflexivity.
+Qed.
+(* a failing merge blanks the class *)
+Lemma merge_fail_blank : forall w id c, get w id = Some c ->
+  phase1 (reg w) (heap w) (co_supers c) [] = None ->
+  exists w', merge w id = (w', false) /\ get w' id = Some (blanked c).
+Proof.
+  intros w id c G P. unfold merge. rewrite G, P. eexists. split; [reflexivity|].
+  unfold get. simpl. apply nth_set_same. eapply nth_error_Some_lt. exact G.
 Qed.
 Lemma merge_true_phase1 : forall w id w', merge w id = (w', true) ->
   exists c ds, get w id = Some c /\ phase1 (reg w) (heap w) (co_supers c) [] = Some ds.
@@ -427,11 +449,13 @@ Qed.
 
 (* one attempted merge of a registered class keeps "every class is good or blank" *)
 Lemma JX_merge_blank : forall w id n c, JX NoX w -> registered w n id c -> co_prec c = [] ->
-  forall w' b, merge w id = (w', b) -> JX NoX w' /\ ext w w' /\ (b = false -> w' = w).
+  forall w' b, merge w id = (w', b) -> JX NoX w' /\ ext w w' /\ rmono w w' /\ (b = false -> w' = w).
 Proof.
   intros w id n c [HWF HJ] Hr Hb w' b M.
   pose proof (merge_ext _ _ _ _ M) as [E Hother].
-  destruct (HJ n id c Hr) as [_ Hgb]. destruct (Hgb (fun x => x)) as [Hg|[_ Hinh]]; [exfalso; exact (good_ready _ _ _ Hg Hb)|].
+  assert (rmono w w') as HM.
+  { apply (merge_rmono _ _ _ _ M). right. unfold readyb. rewrite (proj2 Hr), Hb. reflexivity. }
+  destruct (HJ n id c Hr) as [_ Hgb]. destruct (Hgb (fun x => x)) as [Hg|Hinh]; [exfalso; exact (good_ready _ _ _ Hg Hb)|].
   destruct b.
   - (* success: all supers were ready, hence good *)
     destruct (merge_true_phase1 _ _ _ M) as [c0 [ds [G0 P]]]. destruct Hr as [Hl Hg]. rewrite Hg in G0. inversion G0; subst c0.
@@ -447,7 +471,7 @@ Proof.
       rewrite Hbs in Hall. discriminate. }
     destruct (merge_good w n id c HWF (conj Hl Hg) Hsup) as [w2 [c2 [M2 [G2 Hg2]]]].
     rewrite M in M2. inversion M2; subst w2.
-    split; [|split; [assumption | discriminate]].
+    split; [|split; [assumption | split; [assumption | discriminate]]].
     split; [eapply ext_WF; eassumption|].
     intros m j cm [Lm Gm]. split; [intros []|]. intros _.
     destruct (Nat.eq_dec j id) as [->|Hne].
@@ -462,31 +486,31 @@ Proof.
   - (* failure: nothing changes *)
     destruct Hr as [Hl Hg]. pose proof (merge_false_phase1 _ _ _ _ M Hg) as P.
     rewrite (merge_fail_noop w id c Hg Hinh P) in M. inversion M; subst w'.
-    split; [split; assumption|]. split; [apply ext_refl | reflexivity].
+    split; [split; assumption|]. split; [apply ext_refl|]. split; [apply rmono_refl | reflexivity].
 Qed.
 
 Lemma ready_pass_A : forall l w w' ch, JX NoX w -> all_registered w l -> ready_pass w l = (w', ch) ->
-  JX NoX w' /\ ext w w' /\ (ch = false -> w' = w) /\
+  JX NoX w' /\ ext w w' /\ rmono w w' /\ (ch = false -> w' = w) /\
   (ch = true -> exists id, In id l /\ readyb w id = false /\ readyb w' id = true).
 Proof.
   induction l as [|id r IH]; intros w w' ch HJ Hreg H; simpl in H.
-  - inversion H; subst. split; [assumption|]. split; [apply ext_refl|]. split; [reflexivity | discriminate].
+  - inversion H; subst. split; [assumption|]. split; [apply ext_refl|]. split; [apply rmono_refl|]. split; [reflexivity | discriminate].
   - destruct (readyb w id) eqn:R.
-    + destruct (IH w w' ch HJ) as [A [B [C D]]]; [intros x Hx; apply Hreg; right; assumption | assumption|].
-      split; [assumption|]. split; [assumption|]. split; [assumption|].
+    + destruct (IH w w' ch HJ) as [A [B [B' [C D]]]]; [intros x Hx; apply Hreg; right; assumption | assumption|].
+      split; [assumption|]. split; [assumption|]. split; [assumption|]. split; [assumption|].
       intros Hc. destruct (D Hc) as [x [X1 X2]]. exists x. split; [right; assumption | assumption].
     + destruct (merge w id) as [w1 ok] eqn:M. destruct (ready_pass w1 r) as [w2 ch2] eqn:P. inversion H; subst w' ch. clear H.
       destruct (Hreg id (or_introl eq_refl)) as [n [c Hr]].
       assert (co_prec c = []) as Hb.
       { destruct (co_prec c) eqn:Ec; [reflexivity|]. exfalso.
         assert (readyb w id = true) by (apply readyb_true; exists c; split; [apply Hr | congruence]). congruence. }
-      destruct (JX_merge_blank w id n c HJ Hr Hb w1 ok M) as [HJ1 [E1 N1]].
-      destruct (IH w1 w2 ch2 HJ1) as [A [B [C D]]]; [eapply ext_registered; [exact E1|]; intros x Hx; apply Hreg; right; assumption | assumption|].
-      split; [assumption|]. split; [eapply ext_trans; eassumption|]. split.
+      destruct (JX_merge_blank w id n c HJ Hr Hb w1 ok M) as [HJ1 [E1 [M1 N1]]].
+      destruct (IH w1 w2 ch2 HJ1) as [A [B [B' [C D]]]]; [eapply ext_registered; [exact E1|]; intros x Hx; apply Hreg; right; assumption | assumption|].
+      split; [assumption|]. split; [eapply ext_trans; eassumption|]. split; [eapply rmono_trans; eassumption|]. split.
       * intros Hc. apply orb_false_iff in Hc. destruct Hc as [Hc1 Hc2]. rewrite (C Hc2). apply N1. assumption.
       * intros Hc. destruct ok.
         -- exists id. split; [left; reflexivity|]. split; [assumption|].
-           apply (ext_readyb w1 w2); [assumption|]. eapply merge_true_ready; eassumption.
+           apply B'. eapply merge_true_ready; eassumption.
         -- simpl in Hc. destruct (D Hc) as [x [X1 [X2 X3]]]. exists x. split; [right; assumption|]. split; [|assumption].
            rewrite (N1 eq_refl) in X2. assumption.
 Qed.
@@ -515,17 +539,18 @@ Proof.
 Qed.
 
 Lemma ready_loop_A : forall l fuel w, JX NoX w -> all_registered w l -> nr w l < fuel ->
-  JX NoX (ready_loop fuel w l) /\ ext w (ready_loop fuel w l) /\ ready_pass (ready_loop fuel w l) l = (ready_loop fuel w l, false).
+  JX NoX (ready_loop fuel w l) /\ ext w (ready_loop fuel w l) /\ rmono w (ready_loop fuel w l) /\
+  ready_pass (ready_loop fuel w l) l = (ready_loop fuel w l, false).
 Proof.
   intros l. induction fuel as [|f IH]; intros w HJ Hreg Hn; [lia|]. simpl.
   destruct (ready_pass w l) as [w1 ch] eqn:P.
-  destruct (ready_pass_A l w w1 ch HJ Hreg P) as [HJ1 [E1 [C D]]].
+  destruct (ready_pass_A l w w1 ch HJ Hreg P) as [HJ1 [E1 [M1 [C D]]]].
   destruct ch.
   - destruct (D eq_refl) as [id Hid].
-    assert (nr w1 l < nr w l) by (apply nr_lt; [intros j; apply ext_readyb; assumption | exists id; assumption]).
-    destruct (IH w1 HJ1) as [A [B Cc]]; [eapply ext_registered; eassumption | lia|].
-    split; [assumption|]. split; [eapply ext_trans; eassumption | assumption].
-  - rewrite (C eq_refl) in *. split; [assumption|]. split; [apply ext_refl | assumption].
+    assert (nr w1 l < nr w l) by (apply nr_lt; [exact M1 | exists id; assumption]).
+    destruct (IH w1 HJ1) as [A [B [B' Cc]]]; [eapply ext_registered; eassumption | lia|].
+    split; [assumption|]. split; [eapply ext_trans; eassumption|]. split; [eapply rmono_trans; eassumption | assumption].
+  - rewrite (C eq_refl) in *. split; [assumption|]. split; [apply ext_refl|]. split; [apply rmono_refl | assumption].
 Qed.
 
 (* a pass that changes nothing shows that every not-ready member lacks a ready super *)
@@ -541,7 +566,7 @@ Proof.
     assert (co_prec cx = []) as Hb.
     { destruct (co_prec cx) eqn:Ec; [reflexivity|]. exfalso.
       assert (readyb w x = true) by (apply readyb_true; exists cx; split; [apply Hx | congruence]). congruence. }
-    destruct (JX_merge_blank w x nx cx HJ Hx Hb w1 false M) as [_ [_ N1]]. specialize (N1 eq_refl). subst w1.
+    destruct (JX_merge_blank w x nx cx HJ Hx Hb w1 false M) as [_ [_ [_ N1]]]. specialize (N1 eq_refl). subst w1.
     destruct Hi as [->|Hi].
     + destruct (registered_name_unique w n nx id c cx (proj1 HJ) Hc Hx) as [-> ->].
       pose proof (merge_false_phase1 _ _ _ _ M (proj2 Hx)) as Ph.
@@ -567,7 +592,7 @@ Proof.
   set (l := filter (fun id => negb (readyb w id)) rorder).
   assert (all_registered w l) as Hreg.
   { intros id Hi. apply filter_In in Hi. destruct Hi as [Hi _]. apply reg_ids_registered; [apply HJ | auto]. }
-  destruct (ready_loop_A l (S (length l)) w HJ Hreg) as [HJ' [E P]].
+  destruct (ready_loop_A l (S (length l)) w HJ Hreg) as [HJ' [E [HM P]]].
   { unfold nr. pose proof (filter_len_le _ (fun id => negb (readyb w id)) l). lia. }
   set (w' := ready_loop (S (length l)) w l) in *.
   split; [|assumption]. split; [assumption|].
@@ -578,7 +603,7 @@ Proof.
   apply (pass_false_F l w' HJ' (ext_registered _ _ _ E Hreg) P id) with (n := n); [|assumption|assumption].
   unfold l. apply filter_In. split.
   - apply Hall. pose proof (registered_reg_ids _ _ _ _ Hr) as Hi. unfold reg_ids in *. destruct E as [R _]. rewrite R in Hi. assumption.
-  - destruct (readyb w id) eqn:R; [|reflexivity]. rewrite (ext_readyb _ _ _ E R) in Hnr. discriminate.
+  - destruct (readyb w id) eqn:R; [|reflexivity]. rewrite (HM id R) in Hnr. discriminate.
 Qed.
 
 (* ---- classChanged when every class is already good --------------------------------------------- *)
@@ -991,7 +1016,7 @@ Qed.
 
 (* makeClassesReady does nothing when no class that is not ready has all its supers ready *)
 Lemma ready_pass_noop : forall l w,
-  (forall id, In id l -> readyb w id = false -> exists c, get w id = Some c /\ co_inherit c = [] /\ supers_ready w (co_supers c) = false) ->
+  (forall id, In id l -> readyb w id = false -> exists c, get w id = Some c /\ blank c /\ supers_ready w (co_supers c) = false) ->
   ready_pass w l = (w, false).
 Proof.
   induction l as [|id r IH]; intros w H; simpl; [reflexivity|].
@@ -1013,37 +1038,45 @@ Proof.
     assert (readyb w id = true) by (apply readyb_true; exists c; split; [apply Hr | congruence]). congruence. }
   exists c. split; [apply Hr|]. destruct (HJ m id c Hr) as [A B].
   assert (~ X id) as Hnx by (intro Hx; exact (A Hx Hb)).
-  destruct (B Hnx) as [Hg|[_ Hinh]]; [exfalso; exact (good_ready _ _ _ Hg Hb)|].
+  destruct (B Hnx) as [Hg|Hinh]; [exfalso; exact (good_ready _ _ _ Hg Hb)|].
   split; [assumption|]. apply (HF m id c Hr Hb).
 Qed.
 
 (* ---- classChanged over stale classes, in an order that respects the hierarchy -------------------- *)
 Lemma ext_registered1 : forall w w' n id c, ext w w' -> registered w n id c ->
-  exists c', registered w' n id c' /\ static_eq c c' /\ (co_prec c <> [] -> co_prec c' <> []).
+  exists c', registered w' n id c' /\ static_eq c c'.
 Proof.
-  intros w w' n id c E [L G]. pose proof E as [R [_ [_ [_ H]]]]. destruct (H id c G) as [c' [G' [S P]]].
-  exists c'. split; [split; [rewrite R; assumption | assumption]|]. split; assumption.
+  intros w w' n id c E [L G]. pose proof E as [R [_ [_ [_ H]]]]. destruct (H id c G) as [c' [G' S]].
+  exists c'. split; [split; [rewrite R; assumption | assumption] | assumption].
+Qed.
+Lemma supers_ready_anti : forall w w' supers, reg w' = reg w -> (forall j, readyb w' j = true -> readyb w j = true) ->
+  supers_ready w supers = false -> supers_ready w' supers = false.
+Proof.
+  intros w w' supers R H Hf. destruct (supers_ready w' supers) eqn:E; [|reflexivity].
+  rewrite supers_ready_true in E. rewrite <- Hf. symmetry. apply supers_ready_true.
+  intros s Hs. destruct (E s Hs) as [sid [L Rd]]. exists sid. split; [rewrite <- R; assumption | apply H; assumption].
 Qed.
 
-(* a list of classes to merge again in which every direct super of a class is registered, ready and either does
-   not inherit n or comes earlier *)
+(* a list of classes to merge again in which every registered direct super of a class either does not inherit n
+   or comes earlier *)
 Fixpoint topo (w : world) (n : nat) (done l : list nat) : Prop :=
   match l with
   | [] => True
   | id :: r =>
       (exists c, get w id = Some c /\
-         forall d, In d (co_supers c) -> exists did, lookup (reg w) d = Some did /\ readyb w did = true /\
-                                                    (inherits w did n = false \/ In did done)) /\
+         forall d did, In d (co_supers c) -> lookup (reg w) d = Some did -> inherits w did n = false \/ In did done) /\
       topo w n (id :: done) r
   end.
 
 Section CCB.
   Variables (w0 : world) (n : nat).
   Let subs := sub_ids w0 n.
+  (* the classes of subs not merged yet are as in w0 (ready, stale); all others are good or blank; classes only
+     ever lose readiness *)
   Definition ccI (wk : world) (done : list nat) : Prop :=
     ext w0 wk /\ JX (fun j => In j subs /\ ~ In j done) wk /\ FF wk /\
     (forall j, ~ (In j subs /\ In j done) -> get wk j = get w0 j) /\
-    (forall j, readyb wk j = readyb w0 j).
+    (forall j, readyb wk j = true -> readyb w0 j = true).
   Hypothesis HJ0 : JX (fun j => In j subs) w0.
 
   Lemma ccB_fold : forall r wk done, ccI wk done -> topo w0 n done r ->
@@ -1060,56 +1093,97 @@ Section CCB.
       pose proof (proj1 (sub_ids_In _ _ _) Hidsubs) as [Hidreg Hinh0].
       destruct (reg_ids_registered w0 id HWF0 Hidreg) as [m [c0 Hr0]].
       assert (c0' = c0) by (destruct Hr0 as [_ G]; congruence). subst c0'.
-      destruct (ext_registered1 _ _ _ _ _ E Hr0) as [ck [Hrk [[S1 [S2 S3]] _]]].
+      destruct (ext_registered1 _ _ _ _ _ E Hr0) as [ck [Hrk [S1 [S2 S3]]]].
+      pose proof E as [R0 _].
       assert (Hnext : forall wk', ccI wk' (id :: done) ->
         exists done', (forall x, In x done' <-> In x done \/ In x (id :: r)) /\
           ccI (fold_left (fun w id => fst (merge w id)) r wk') done').
       { intros wk' HI'. destruct (IH wk' (id :: done) HI' Htopo) as [done' [Hd HI'']]; [intros x Hx; apply Hreg; right; assumption|].
         exists done'. split; [|assumption]. intros x. rewrite Hd. simpl. tauto. }
-      assert (Hsup : forall s, In s (co_supers ck) -> exists sid sc, registered wk s sid sc /\ good wk s sc).
-      { intros s Hs. rewrite S2 in Hs. destruct (Hid s Hs) as [sid [Ls [Hr Hord]]].
-        apply readyb_true in Hr. destruct Hr as [sc0 [Gs0 Ps0]].
-        destruct (ext_registered1 _ _ _ _ _ E (conj Ls Gs0)) as [sc [Hrs [_ Pk]]].
-        exists sid, sc. split; [assumption|].
-        destruct HJ as [_ HJk]. destruct (HJk s sid sc Hrs) as [_ B].
-        assert (~ (In sid subs /\ ~ In sid done)) as Hnx.
-        { intros [Hs1 Hs2]. destruct Hord as [Hord|Hord].
-          - apply sub_ids_In in Hs1. destruct Hs1 as [_ Hs1]. rewrite Hs1 in Hord. discriminate.
-          - contradiction. }
-        destruct (B Hnx) as [Hg|[Hb _]]; [assumption|]. exfalso. exact (Pk Ps0 Hb). }
-      destruct (merge_good wk m id ck (proj1 HJ) Hrk Hsup) as [w' [c' [M [G' Hg']]]].
-      rewrite M. simpl. apply Hnext.
-      destruct (merge_ext _ _ _ _ M) as [E' Hother].
-      assert (readyb wk id = true) as Rid.
-      { rewrite Hrd. apply readyb_true. exists c0. split; [apply Hr0|]. destruct (HJ0' m id c0 Hr0) as [A _]. apply A. assumption. }
-      pose proof (merge_ready_same _ _ _ M Rid) as Hsame.
-      pose proof E' as [R' _].
-      split; [eapply ext_trans; eassumption|]. split; [|split; [|split]].
-      * split; [eapply ext_WF; [exact E' | apply HJ]|].
-        intros m' j cj [Lm Gm]. rewrite R' in Lm.
-        destruct (Nat.eq_dec j id) as [->|Hne].
-        -- rewrite G' in Gm. inversion Gm; subst cj.
-           assert (m' = m).
-           { destruct (proj1 HJ) as [_ HW]. destruct (HW m' id Lm) as [x [Gx [Hx _]]]. destruct (HW m id (proj1 Hrk)) as [y [Gy [Hy _]]]. congruence. }
-           subst m'. split; [intros [_ Hc]; exfalso; apply Hc; left; reflexivity | intros _; left; assumption].
-        -- rewrite (Hother j Hne) in Gm. destruct HJ as [_ HJk]. destruct (HJk m' j cj (conj Lm Gm)) as [A B]. split.
-           ++ intros [Hx1 Hx2]. apply A. split; [assumption|]. intro Hc. apply Hx2. right. assumption.
-           ++ intros Hnx. destruct B as [Hg|Hb].
-              ** intros [Hx1 Hx2]. apply Hnx. split; [assumption|]. intros [Hc|Hc]; [congruence | contradiction].
-              ** left. eapply ext_good; eassumption.
-              ** right. assumption.
-      * intros m' j cj [Lm Gm] Hb. rewrite R' in Lm.
-        assert (j <> id) as Hne. { intros ->. rewrite G' in Gm. inversion Gm; subst. exact (good_ready _ _ _ Hg' Hb). }
-        rewrite (Hother j Hne) in Gm. rewrite (supers_ready_same wk w' _ R' Hsame). apply (HF m' j cj); [split; assumption | assumption].
-      * intros j Hj. assert (j <> id) as Hne. { intros ->. apply Hj. split; [assumption | left; reflexivity]. }
-        rewrite (Hother j Hne). apply Hun. intros [H1 H2]. apply Hj. split; [assumption | right; assumption].
-      * intros j. rewrite Hsame. apply Hrd.
+      destruct (phase1 (reg wk) (heap wk) (co_supers ck) []) as [ds|] eqn:P.
+      + (* every direct super is ready: it is not waiting, hence good *)
+        assert (Hsup : forall s, In s (co_supers ck) -> exists sid sc, registered wk s sid sc /\ good wk s sc).
+        { intros s Hs. assert (forallb (ready_in (reg wk) (heap wk)) (co_supers ck) = true) as Hall.
+          { destruct (forallb (ready_in (reg wk) (heap wk)) (co_supers ck)) eqn:EE; [reflexivity|].
+            apply phase1_none_iff with (acc := []) in EE. congruence. }
+          rewrite forallb_forall in Hall. specialize (Hall s Hs). unfold ready_in in Hall.
+          destruct (lookup (reg wk) s) as [sid|] eqn:Ls; [|discriminate].
+          destruct (nth_error (heap wk) sid) as [sc|] eqn:Gs; [|discriminate].
+          exists sid, sc. split; [split; assumption|].
+          rewrite S2 in Hs. rewrite R0 in Ls. destruct (Hid s sid Hs Ls) as [Hord|Hord].
+          - destruct HJ as [_ HJk]. destruct (HJk s sid sc (conj (eq_trans (f_equal (fun r => lookup r s) R0) Ls) Gs)) as [_ B].
+            assert (~ (In sid subs /\ ~ In sid done)) as Hnx.
+            { intros [Hs1 _]. apply sub_ids_In in Hs1. destruct Hs1 as [_ Hs1]. rewrite Hs1 in Hord. discriminate. }
+            destruct (B Hnx) as [Hg|[Hb _]]; [assumption|]. rewrite Hb in Hall. discriminate.
+          - destruct HJ as [_ HJk]. destruct (HJk s sid sc (conj (eq_trans (f_equal (fun r => lookup r s) R0) Ls) Gs)) as [_ B].
+            assert (~ (In sid subs /\ ~ In sid done)) as Hnx by (intros [_ Hs2]; contradiction).
+            destruct (B Hnx) as [Hg|[Hb _]]; [assumption|]. rewrite Hb in Hall. discriminate. }
+        destruct (merge_good wk m id ck (proj1 HJ) Hrk Hsup) as [w' [c' [M [G' Hg']]]].
+        rewrite M. simpl. apply Hnext.
+        destruct (merge_ext _ _ _ _ M) as [E' Hother].
+        assert (readyb wk id = true) as Rid.
+        { destruct (readyb wk id) eqn:Rk; [reflexivity|]. exfalso.
+          assert (co_prec ck = []) as Hb.
+          { destruct (co_prec ck) eqn:Ec; [reflexivity|]. assert (readyb wk id = true) by (apply readyb_true; exists ck; split; [apply Hrk | congruence]). congruence. }
+          pose proof (HF m id ck Hrk Hb) as Hsr. rewrite supers_ready_forallb in Hsr. apply (phase1_none_iff _ _ _ []) in Hsr. congruence. }
+        pose proof (merge_ready_same _ _ _ M Rid) as Hsame.
+        pose proof E' as [R' _].
+        split; [eapply ext_trans; eassumption|]. split; [|split; [|split]].
+        * split; [eapply ext_WF; [exact E' | apply HJ]|].
+          intros m' j cj [Lm Gm]. rewrite R' in Lm.
+          destruct (Nat.eq_dec j id) as [->|Hne].
+          -- rewrite G' in Gm. inversion Gm; subst cj.
+             assert (m' = m).
+             { destruct (proj1 HJ) as [_ HW]. destruct (HW m' id Lm) as [x [Gx [Hx _]]]. destruct (HW m id (proj1 Hrk)) as [y [Gy [Hy _]]]. congruence. }
+             subst m'. split; [intros [_ Hc]; exfalso; apply Hc; left; reflexivity | intros _; left; assumption].
+          -- rewrite (Hother j Hne) in Gm. destruct HJ as [_ HJk]. destruct (HJk m' j cj (conj Lm Gm)) as [A B]. split.
+             ++ intros [Hx1 Hx2]. apply A. split; [assumption|]. intro Hc. apply Hx2. right. assumption.
+             ++ intros Hnx. destruct B as [Hg|Hb].
+                ** intros [Hx1 Hx2]. apply Hnx. split; [assumption|]. intros [Hc|Hc]; [congruence | contradiction].
+                ** left. eapply ext_good; eassumption.
+                ** right. assumption.
+        * intros m' j cj [Lm Gm] Hb. rewrite R' in Lm.
+          assert (j <> id) as Hne. { intros ->. rewrite G' in Gm. inversion Gm; subst. exact (good_ready _ _ _ Hg' Hb). }
+          rewrite (Hother j Hne) in Gm. rewrite (supers_ready_same wk w' _ R' Hsame). apply (HF m' j cj); [split; assumption | assumption].
+        * intros j Hj. assert (j <> id) as Hne. { intros ->. apply Hj. split; [assumption | left; reflexivity]. }
+          rewrite (Hother j Hne). apply Hun. intros [H1 H2]. apply Hj. split; [assumption | right; assumption].
+        * intros j Hj. rewrite Hsame in Hj. apply Hrd. assumption.
+      + (* some direct super is missing or not ready: the class is blanked and waits *)
+        destruct (merge_fail_blank wk id ck (proj2 Hrk) P) as [w' [M G']].
+        rewrite M. simpl. apply Hnext.
+        destruct (merge_ext _ _ _ _ M) as [E' Hother].
+        pose proof E' as [R' _].
+        assert (Hanti : forall j, readyb w' j = true -> readyb wk j = true).
+        { intros j Hj. destruct (Nat.eq_dec j id) as [->|Hne].
+          - unfold readyb in Hj. rewrite G' in Hj. discriminate.
+          - unfold readyb in *. rewrite (Hother j Hne) in Hj. assumption. }
+        assert (Hsrk : supers_ready wk (co_supers ck) = false).
+        { rewrite supers_ready_forallb. apply (phase1_none_iff _ _ _ []). assumption. }
+        split; [eapply ext_trans; eassumption|]. split; [|split; [|split]].
+        * split; [eapply ext_WF; [exact E' | apply HJ]|].
+          intros m' j cj [Lm Gm]. rewrite R' in Lm.
+          destruct (Nat.eq_dec j id) as [->|Hne].
+          -- rewrite G' in Gm. inversion Gm; subst cj.
+             split; [intros [_ Hc]; exfalso; apply Hc; left; reflexivity | intros _; right; apply blanked_blank].
+          -- rewrite (Hother j Hne) in Gm. destruct HJ as [_ HJk]. destruct (HJk m' j cj (conj Lm Gm)) as [A B]. split.
+             ++ intros [Hx1 Hx2]. apply A. split; [assumption|]. intro Hc. apply Hx2. right. assumption.
+             ++ intros Hnx. destruct B as [Hg|Hb].
+                ** intros [Hx1 Hx2]. apply Hnx. split; [assumption|]. intros [Hc|Hc]; [congruence | contradiction].
+                ** left. eapply ext_good; eassumption.
+                ** right. assumption.
+        * intros m' j cj [Lm Gm] Hb. rewrite R' in Lm.
+          apply (supers_ready_anti wk w' _ R' Hanti).
+          destruct (Nat.eq_dec j id) as [->|Hne].
+          -- rewrite G' in Gm. inversion Gm; subst cj. simpl. assumption.
+          -- rewrite (Hother j Hne) in Gm. apply (HF m' j cj); [split; assumption | assumption].
+        * intros j Hj. assert (j <> id) as Hne. { intros ->. apply Hj. split; [assumption | left; reflexivity]. }
+          rewrite (Hother j Hne). apply Hun. intros [H1 H2]. apply Hj. split; [assumption | right; assumption].
+        * intros j Hj. apply Hrd. apply Hanti. assumption.
   Qed.
 
   (* the order classChanged sorts the stale classes into is such a list *)
   Hypothesis Hlen : forall id m c, In id subs -> registered w0 m id c ->
     forall s did, In s (co_supers c) -> lookup (reg w0) s = Some did -> In did subs -> inh_len w0 did < inh_len w0 id.
-  Hypothesis Hsr : forall id c, In id subs -> get w0 id = Some c -> supers_ready w0 (co_supers c) = true.
 
   Lemma topo_of_sorted : forall l done, sortedf (inh_len w0) l -> (forall id, In id l -> In id subs) ->
     (forall x, In x subs -> In x done \/ In x l) -> topo w0 n done l.
@@ -1120,9 +1194,7 @@ Section CCB.
     pose proof (proj1 (sub_ids_In _ _ _) Hidsubs) as [Hidreg Hinh0].
     destruct (reg_ids_registered w0 id HWF0 Hidreg) as [m [c Hr]].
     split.
-    - exists c. split; [apply Hr|]. intros d Hd.
-      pose proof (Hsr id c Hidsubs (proj2 Hr)) as Hready. rewrite supers_ready_true in Hready.
-      destruct (Hready d Hd) as [did [Ld Rd]]. exists did. split; [assumption|]. split; [assumption|].
+    - exists c. split; [apply Hr|]. intros d did Hd Ld.
       destruct (inherits w0 did n) eqn:Ei; [|left; reflexivity]. right.
       assert (In did subs) as Hdsubs.
       { apply sub_ids_In. split; [|assumption]. unfold reg_ids. apply in_map_iff. exists (d, did). split; [reflexivity | apply lookup_In; assumption]. }
@@ -1136,19 +1208,18 @@ End CCB.
 Lemma class_changed_B : forall w n corder, JX (fun j => In j (sub_ids w n)) w -> FF w ->
   (forall id m c, In id (sub_ids w n) -> registered w m id c ->
     forall s did, In s (co_supers c) -> lookup (reg w) s = Some did -> In did (sub_ids w n) -> inh_len w did < inh_len w id) ->
-  (forall id c, In id (sub_ids w n) -> get w id = Some c -> supers_ready w (co_supers c) = true) ->
   (forall id, In id corder -> In id (reg_ids w)) ->
   (forall id, In id (sub_ids w n) -> In id corder) ->
   Inv (class_changed w n corder) /\ ext w (class_changed w n corder).
 Proof.
-  intros w n corder HJ HF Hlen Hsr Hreg Hall. unfold class_changed.
+  intros w n corder HJ HF Hlen Hreg Hall. unfold class_changed.
   assert (Hsub : forall id, In id (stale_order w n corder) -> In id (sub_ids w n)).
   { intros id Hi. apply stale_order_In in Hi. apply sub_ids_In. split; [apply Hreg; apply Hi | apply Hi]. }
   assert (Hcov : forall x, In x (sub_ids w n) -> In x [] \/ In x (stale_order w n corder)).
   { intros x Hx. right. apply stale_order_In. split; [apply Hall; assumption|]. apply sub_ids_In in Hx. apply Hx. }
-  pose proof (topo_of_sorted w n HJ Hlen Hsr (stale_order w n corder) [] (sort_by_sorted _ _) Hsub Hcov) as Htopo.
+  pose proof (topo_of_sorted w n HJ Hlen (stale_order w n corder) [] (sort_by_sorted _ _) Hsub Hcov) as Htopo.
   destruct (ccB_fold w n HJ (stale_order w n corder) w []) as [done' [Hd [E [HJ' [HF' _]]]]].
-  - split; [apply ext_refl|]. split; [|split; [assumption|split; [reflexivity|reflexivity]]].
+  - split; [apply ext_refl|]. split; [|split; [assumption|split; [reflexivity | intros j Hj; exact Hj]]].
     apply (JX_iff (fun j => In j (sub_ids w n))); [|assumption]. intros j. simpl. tauto.
   - assumption.
   - assumption.
@@ -1174,7 +1245,6 @@ Lemma g_defclass_parts : forall w n supers slots rorder corder, g_defclass w n s
         let subs := sub_ids w n in
         let bad := n :: flat_map (fun id => match name_of w id with Some m => [m] | None => [] end) subs in
         forallb (fun d => negb (memb d bad)) supers
-        && stale_supers_ready (defclass_pre w n supers slots rorder) n corder
         && forallb (fun k => negb (memb k bad)) (cache_keys w)
       else true
   end = true.
@@ -1206,7 +1276,7 @@ Proof.
   - destruct (readyb w old) eqn:Rold.
     + (* case B *)
       repeat (apply andb_true_iff in Hcase; destruct Hcase as [Hcase ?]).
-      rename H into Gcache, H0 into Gtopo. rename Hcase into G1.
+      rename H into Gcache. rename Hcase into G1.
       apply readyb_true in Rold. destruct Rold as [oc [Go Po]].
       assert (HG1 : forall s sid, In s supers -> lookup (reg w) s = Some sid -> s <> n /\ ~ In sid (sub_ids w n)).
       { intros s sid Hs Ls. pose proof (forallb_In _ _ _ s G1 Hs) as Hb. apply negb_true_iff in Hb. apply memb_false in Hb.
@@ -1219,8 +1289,6 @@ Proof.
       assert (HC1 : forall id, In id (sub_ids wr n) -> In id corder) by (intros id Hi; apply memb_In; exact (forallb_In _ _ _ id C1 Hi)).
       apply class_changed_B; try assumption.
       * apply reg_B_len; assumption.
-      * intros id c Hi Gc. pose proof (forallb_In _ _ _ id Gtopo (HC1 id Hi)) as Hb. cbv beta in Hb.
-        apply sub_ids_In in Hi. destruct Hi as [_ Hi]. rewrite Hi, Gc in Hb. assumption.
       * intros id Hi. apply memb_In. exact (forallb_In _ _ _ id C2 Hi).
     + apply HcaseA. intros id c [L Gc]. rewrite Lold in L. inversion L; subst id.
       destruct (co_prec c) eqn:E; [reflexivity|]. exfalso.
